@@ -3,10 +3,11 @@ import H2V.Lemmas.ConnCountsPCore
   C05 / C18 / C19 — part 5b: slab entries descend from slab entries.
   `LD s s'` ("look-ups descend"): every entry of `s'` sits under the same key as an entry of `s` with the
   same stream id, and is not less opened than that one.  All elementary steps but the insertions
-  are `LD`; `Ev.ne` concludes that an entry that has left the unopened states never returns to them.
+  are `LD`; `EvB.ne` concludes that an entry that has left the unopened states never returns to them.
 -/
 namespace H2V.Lemmas.ConnCountsP
 open H2V H2V.Model H2V.Model.Conn
+variable {ρ : Bool}
 
 structure LD (s s' : Streams) : Prop where
   nextKey : s'.store.nextKey = s.store.nextKey
@@ -148,7 +149,7 @@ theorem NE.insert (s : Streams) (st : Stream) : NE s { s with store := (s.store.
     rw [this] at hx; exact hne x hx
   · omega
 
-theorem Ev.ne {s s' : Streams} (h : Ev s s') : NE s s' := by
+theorem EvB.ne {s s' : Streams} (h : EvB ρ s s') : NE s s' := by
   induction h with
   | refl s => exact NE.refl s
   | trans _ _ ih1 ih2 => exact ih1.trans ih2
